@@ -65,6 +65,11 @@ type fNot struct{ x Formula }
 type fAnd struct{ x, y Formula }
 type fOr struct{ x, y Formula }
 type fConst struct{ v bool }
+type fCount struct {
+	opts []string
+	op   token.Token
+	k    int
+}
 
 func (f fAny) Eval(v Valuation) bool {
 	for _, o := range f.opts {
@@ -94,6 +99,32 @@ func (f fAnd) Eval(v Valuation) bool    { return f.x.Eval(v) && f.y.Eval(v) }
 func (f fAnd) String() string           { return "(" + f.x.String() + " && " + f.y.String() + ")" }
 func (f fOr) Eval(v Valuation) bool     { return f.x.Eval(v) || f.y.Eval(v) }
 func (f fOr) String() string            { return "(" + f.x.String() + " || " + f.y.String() + ")" }
+func (f fCount) Eval(v Valuation) bool {
+	n := 0
+	for _, o := range f.opts {
+		if v.Opts[o] {
+			n++
+		}
+	}
+	switch f.op {
+	case token.GTR:
+		return n > f.k
+	case token.GEQ:
+		return n >= f.k
+	case token.LSS:
+		return n < f.k
+	case token.LEQ:
+		return n <= f.k
+	case token.EQL:
+		return n == f.k
+	case token.NEQ:
+		return n != f.k
+	}
+	return false
+}
+func (f fCount) String() string {
+	return fmt.Sprintf("count(%s) %s %d", strings.Join(f.opts, ","), f.op, f.k)
+}
 func (f fConst) Eval(Valuation) bool    { return f.v }
 func (f fConst) String() string         { return fmt.Sprint(f.v) }
 
@@ -112,6 +143,26 @@ func (g *Generator) ParseFormula(e ast.Expr) (Formula, error) {
 			return fNot{f}, nil
 		}
 	case *ast.BinaryExpr:
+		// countMethodOptions(m, E...) <op> <int literal>
+		switch x.Op {
+		case token.GTR, token.GEQ, token.LSS, token.LEQ, token.EQL, token.NEQ:
+			ce, isCall := x.X.(*ast.CallExpr)
+			bl, isLit := x.Y.(*ast.BasicLit)
+			if isCall && isLit && bl.Kind == token.INT {
+				if id, ok := ce.Fun.(*ast.Ident); ok && id.Name == "countMethodOptions" && len(ce.Args) >= 2 {
+					var opts []string
+					for _, a := range ce.Args[1:] {
+						os, err := g.extArgs(a, ce.Ellipsis.IsValid())
+						if err != nil {
+							return nil, err
+						}
+						opts = append(opts, os...)
+					}
+					k, _ := strconv.Atoi(bl.Value)
+					return fCount{opts, x.Op, k}, nil
+				}
+			}
+		}
 		if x.Op == token.LAND || x.Op == token.LOR {
 			a, err := g.ParseFormula(x.X)
 			if err != nil {
